@@ -20,6 +20,7 @@
 package main
 
 import (
+	"archive/zip"
 	"bytes"
 	"context"
 	"crypto/ecdsa"
@@ -29,6 +30,7 @@ import (
 	"crypto/x509"
 	"crypto/x509/pkix"
 	"encoding/json"
+	"encoding/pem"
 	"flag"
 	"fmt"
 	"io"
@@ -296,6 +298,40 @@ func (p *pki) lookalike(tpl *x509.Certificate, extra bool) (tls.Certificate, err
 	p.genuineOf[leaf.cert.SerialNumber.String()] = tls.Certificate{Certificate: [][]byte{genuine.der}, PrivateKey: genuine.key, Leaf: genuine.cert}
 	p.mu.Unlock()
 	return out, nil
+}
+
+// loadBundle builds a secure-connect bundle zip (config.json, ca.crt, cert, key) in memory and loads it with the real
+// astra.LoadBundleZip.
+func (p *pki) loadBundle(ca keyCert, host string, port int) (*astra.Bundle, error) {
+	var buf bytes.Buffer
+	zw := zip.NewWriter(&buf)
+	keyDER, err := x509.MarshalECPrivateKey(p.client.key)
+	if err != nil {
+		return nil, err
+	}
+	cfg, _ := json.Marshal(map[string]interface{}{"host": host, "port": port})
+	for name, content := range map[string][]byte{
+		"config.json": cfg,
+		"ca.crt":      pem.EncodeToMemory(&pem.Block{Type: "CERTIFICATE", Bytes: ca.der}),
+		"cert":        pem.EncodeToMemory(&pem.Block{Type: "CERTIFICATE", Bytes: p.client.der}),
+		"key":         pem.EncodeToMemory(&pem.Block{Type: "EC PRIVATE KEY", Bytes: keyDER}),
+	} {
+		w, err := zw.Create(name)
+		if err != nil {
+			return nil, err
+		}
+		if _, err := w.Write(content); err != nil {
+			return nil, err
+		}
+	}
+	if err := zw.Close(); err != nil {
+		return nil, err
+	}
+	zr, err := zip.NewReader(bytes.NewReader(buf.Bytes()), int64(buf.Len()))
+	if err != nil {
+		return nil, err
+	}
+	return astra.LoadBundleZip(zr)
 }
 
 var goodChain = Chain{Signer: "direct", Extra: false, SAN: "bundleHost", Validity: "current"}
@@ -657,17 +693,14 @@ func runRow(p *pki, row Row) (res Result) {
 		return
 	}
 
-	// the bundle, as astra.LoadBundleZip builds it (private pool instead of system pool + CA)
-	roots := x509.NewCertPool()
-	roots.AddCert(p.bundleCA.cert)
-	bundle := &astra.Bundle{
-		TLSConfig: &tls.Config{
-			RootCAs:      roots,
-			Certificates: []tls.Certificate{{Certificate: [][]byte{p.client.der}, PrivateKey: p.client.key, Leaf: p.client.cert}},
-			ServerName:   host,
-		},
-		Host: host,
-		Port: ms.port(),
+	// the bundle is loaded from a zip by astra.LoadBundleZip (system roots + the bundle's CA); a decoy bundle whose CA
+	// is the OTHER CA was loaded in this process before (main): bundles do not share trust anchors
+	bundle, err := p.loadBundle(p.bundleCA, host, ms.port())
+	if err != nil {
+		nd.stop()
+		ms.stop()
+		res.Infra = "bundle: " + err.Error()
+		return
 	}
 	resolver := astra.NewResolver(bundle, 5*time.Second)
 	ctx, cancel := context.WithTimeout(context.Background(), 20*time.Second)
@@ -827,6 +860,11 @@ func main() {
 	// observed later are not artefacts of a broken certificate factory
 	if err := selfTest(p); err != nil {
 		fmt.Fprintln(os.Stderr, "vdrv-tls: pki self-test:", err)
+		os.Exit(3)
+	}
+	// another database's bundle, whose CA is the OTHER CA, is loaded in the same process first
+	if _, err := p.loadBundle(p.otherCA, "localhost", 1); err != nil {
+		fmt.Fprintln(os.Stderr, "vdrv-tls: decoy bundle:", err)
 		os.Exit(3)
 	}
 	results := make([]Result, len(rows))
